@@ -512,6 +512,9 @@ impl Python {
                         indent = indent,
                         indented_comments = comments
                             .iter()
+                            // a backslash would start an escape sequence and `"""` would end
+                            // the docstring early
+                            .map(|v| v.replace('\\', "\\\\").replace("\"\"\"", "\\\"\\\"\\\""))
                             .map(|v| format!("{}{}", indent, v))
                             .collect::<Vec<String>>()
                             .join("\n"),
